@@ -36,3 +36,4 @@ def register(w):
         c.defaults = {"event": "None"}
         c.mod(A, "self._history", "self.context", "self._action_depth", "self.status", "self.output", "self.error")
         c.ens(f"forall[Node](lambda n: (n in {A}) == (n in old({A}) and not (n in states_to_exit)))", label="removes-exactly-the-listed-states")
+        c.may_raise("Exception")
